@@ -13,6 +13,12 @@
  * INSTANCES at concrete index pairs (ORD4(i,j), NONEMPTY4(i), SORTED4_AT(i,j), ...): a clause `H(i,j) ==> C` proved here for the
  * indices the argument needs holds a fortiori for every table that is ordered at all pairs.  The lemma units over contracts
  * (c13_fill*, defines ASSUME_SORTED) instantiate: there every instance macro is the ghost boolean g_sorted ("ordered at all pairs").
+ *
+ * Units that FAIL on a tree with the three cached-path defects found while building these units (each confirmed on the real code by
+ * replay/c13_cmap.cpp; every other unit passes):
+ *   c13_fill4_cover / c13_fill12_cover  cache_subtable.loop_invariant_step.6   cache_subtable never stores U+0001 when the first segment/group starts at U+0000
+ *   c13_cached_ctor_bmp                 CachedCmap_ctor.postcondition.2        BMP code points mapped only by the format 12 subtable keep the format 12 glyph
+ *   c13_cached_ctor_last                CachedCmap_ctor.postcondition.[23]     U+FFFF / U+10FFFF are never stored (fill loop: codePoint < limit)
  */
 #include "types.h"
 
@@ -464,7 +470,6 @@ __CPROVER_requires(cmap->_p == g_cmap_p && cmap->_sz == g_cmap_sz)
 __CPROVER_assigns()
 __CPROVER_ensures(__CPROVER_return_value == pick(5, 6, g_pass12))
 __CPROVER_ensures(__CPROVER_return_value == NULL || chk(__CPROVER_return_value, g_pass12));
-#define TABLE_SUBS
 /*@extract {'file':'src/CmapCache.cpp', 'sig': r'const void \* bmp_subtable\(const Face::Table & cmap\)', 'emit':'const void *bmp_subtable(const Table *cmap)', 'strip':['TtfUtil::'],
    'subs':[[r'cmap\.size\(\)', 'cmap->_sz', 0], [r'\bcmap \+', 'cmap->_p +', 0], [r'FindCmapSubtable\(cmap,', 'FindCmapSubtable(cmap->_p,', 0]]}@*/
 /*@extract {'file':'src/CmapCache.cpp', 'sig': r'const void \* smp_subtable\(const Face::Table & cmap\)', 'emit':'const void *smp_subtable(const Table *cmap)', 'strip':['TtfUtil::'],
